@@ -223,6 +223,22 @@ theorem relabel_raises_iff (s : VState) (h : s.Inv) (m : List (Label × Label)) 
     s.relabel m = none ↔ VState.Rejected m s.abs :=
   VState.relabel_none_iff s h m hk
 
+/-- **exactly**: when every key of the mapping is a variable (the documented use), `_relabel` raises — changing
+    nothing — if and only if the mapping would merge two labels -/
+theorem relabel_raises_iff_merge (s : VState) (h : s.Inv) (m : List (Label × Label)) (hk : (m.map Prod.fst).Nodup)
+    (hsub : ∀ k ∈ m.map Prod.fst, k ∈ s.abs) :
+    (s.relabel m = none ∧ s.step (.relabel m) = (s, false)) ↔
+      ¬ (s.abs.map (fun l => (LSpec.lookup m l).getD l)).Nodup := by
+  constructor
+  · intro hn; exact (VState.relabel_none_iff_merge s h m hk hsub).1 hn.1
+  · intro hm; exact VState.relabel_rejects_merge s h m hk hm
+
+/-- a swap is accepted, mapping both onto one label is a merge -/
+example : wS.Inv ∧ (∀ k ∈ [(Label.int 2, Label.int 0), (.int 0, .int 2)].map Prod.fst, k ∈ wS.abs) ∧
+    (wS.abs.map (fun l => (LSpec.lookup [(Label.int 2, Label.int 0), (.int 0, .int 2)] l).getD l)).Nodup ∧
+    ¬ (wS.abs.map (fun l => (LSpec.lookup [(Label.int 2, Label.int 7), (.int 0, .int 7)] l).getD l)).Nodup :=
+  ⟨wS_inv, by decide +kernel⟩
+
 /-- the rejection test of the code is coarser than "would merge": `{"zz": "a"}` on `[2, "a", 0, 3]` is rejected
     although the key is absent and nothing would be merged (the reference list of the harness rejects it too) -/
 example : wS.Inv ∧ ([(Label.str "zz", Label.str "a")].map Prod.fst).Nodup ∧
